@@ -3,11 +3,24 @@
 (* over an alphabet that hits every bufio path (byte, small field, field    *)
 (* = buffer size and one larger: the direct-read path, ReadFull small and   *)
 (* larger than the buffer).                                                 *)
-EXTENDS ReaderStack
+EXTENDS ReaderStack, Json
 CONSTANT MaxLen
 Alphabet == { <<"B">>, <<"R", 2>>, <<"R", 3>>, <<"R", BUF>>, <<"R", BUF + 1>>,
               <<"F", 2>>, <<"F", BUF + 2>> }
 MCProgs == UNION { [1..l -> Alphabet] : l \in 0..MaxLen }
+AnyDeliv == 0..MaxN
+\* generation for replay on the real bufio.Reader (whose smallest buffer is 16 bytes):
+\* request programs shaped like the PNG / WebP / ICC parsers, scaled to BUF = 16
+GenProgs == { << <<"R", 8>>, <<"B">>, <<"B">>, <<"B">>, <<"B">>, <<"R", 4>>, <<"B">>, <<"F", 20>> >>,
+              << <<"R", 4>>, <<"B">>, <<"B">>, <<"F", 4>>, <<"R", 4>>, <<"R", BUF>>, <<"B">> >>,
+              << <<"B">>, <<"B">>, <<"R", BUF + 1>>, <<"B">>, <<"F", 3>> >>,
+              << <<"F", BUF + 5>>, <<"R", 2>>, <<"B">>, <<"B">>, <<"R", 3>> >>,
+              << <<"B">>, <<"F", 2>>, <<"F", BUF>>, <<"B">>, <<"R", BUF + 3>>, <<"B">> >> }
+GenDeliv == {1, 3, 5, BUF - 1, BUF, BUF + 1}
+Finished == outcome # "run"
+PrintBehaviour == Finished =>
+    PrintT(ToJson([prog |-> prog, n |-> n, fail |-> failKind, sched |-> sched, outcome |-> outcome,
+                   pulled |-> pulled, consumed |-> consumed, tee |-> tee, mode |-> ReadMode, buf |-> BUF]))
 \* history variable sched is output only: hide it from the fingerprint
 View == <<n, failKind, prog, pc, got, pulled, consumed, berr, tee, outcome>>
 =============================================================================
